@@ -464,7 +464,8 @@ func (r *WordRenderer) cleanText(text string) string {
 func (r *WordRenderer) renderTable(node *extast.Table) (ast.WalkStatus, error) {
 	// 收集表格数据
 	var tableData [][]string
-	var alignments []extast.Alignment
+	// 列对齐方式属于整个表格（只有表头的表格没有TableRow可取）
+	alignments := node.Alignments
 	var emphases [][]int
 
 	// 遍历表头
